@@ -8,7 +8,7 @@
 3. fallible op on valid slots only (FOV): every invocation of a fallible user closure in the arity
    kernels runs under try_for_each_valid_idx or behind a null test."""
 import re
-from . import facts as factsmod, flow, dtm, disc
+from . import facts as factsmod, flow, dtm, disc, pairs
 from .mirlib import Body, callee, callee_names, op_local
 
 FLOATS = {"f32", "f64", "half::f16", "half::binary16::f16"}
@@ -250,6 +250,7 @@ def run(ck, tier):
     run_native(ck, F)
     run_wrapping(ck, F)
     run_fov(ck, F)
+    pairs.check(ck, F, "C12.buffer-offset-pair", ["arrow_arith"], 8)
     ck.note("Decided: routing of checked/wrapping primitives for 12 native types x 14 methods, absence of wrapping primitives in checked "
             "contexts of arrow_arith, fallible closures applied to valid slots only. Not decided: exactness of i256/decimal formulas, Kleene logic.")
     return F.info
